@@ -230,6 +230,17 @@ Definition finish (g : graph) (tmin : Q) (full : bool) (n0 : nat) (s : est) : re
 Definition esir_fuel (g : graph) (i0 : list node) : nat :=
   length i0 + fold_right (fun v a => S (length (gadj g v)) + a)%nat O (gnodes g).
 
+(* the domain of the property C11 as a boolean: simple adjacency inside the node
+   list, delays and durations non-negative on the graph, initial nodes in the graph
+   and not initially recovered, tmin < tmax *)
+Definition nonnegx (x : xtime) : bool := match x with Some d => Qleb 0 d | None => true end.
+Definition esir_okb (g : graph) (delay : node -> node -> xtime) (dur : node -> xtime)
+    (i0 r0 : list node) (tmin : Q) (tmax : xtime) : bool :=
+  nodupb (gnodes g) &&
+  forallb (fun u => nodupb (gadj g u) && subsetb (gadj g u) (gnodes g) && nonnegx (dur u) &&
+                    forallb (fun v => nonnegx (delay u v)) (gadj g u)) (gnodes g) &&
+  subsetb i0 (gnodes g) && forallb (fun u => negb (mem u r0)) i0 && xltb (Some tmin) tmax.
+
 (* fast_nonMarkov_SIR with trans_time_fxn / rec_time_fxn given as tables and
    initial_infecteds given (the rho / sampling entry is [fast_nonmarkov] below) *)
 Definition esir_run (tb : tiepolicy) (g : graph) (delay : node -> node -> xtime) (dur : node -> xtime)
